@@ -1,4 +1,5 @@
 """C05 — parsing any text ends with a syntax tree or a positioned diagnostic; tokens cover the source."""
+import itertools
 import json
 import os
 
@@ -23,6 +24,19 @@ def run(ck):
         for row in genlex.gen_inputs(2 if q else 3, genlex.UNI + [b"a", b"1", b" ", b"\n", b'"', b"=", b"#", b"(", b"{", b"`"]):
             fh.write(json.dumps(row) + "\n")
             n += 1
+        # quoted literals: every body up to 3 (thorough: 4) pieces over escapes of every form, plain / multi-byte text, invalid and
+        # truncated UTF-8, NUL, a line break and the other quote, in both quote kinds, closed and left open
+        pieces = [b"\\t", b"\\x41", b"\\u00e9", b"\\101", b"\\\\", b"a", "\u00e9".encode(), b"\xff", b"\xc2", b"\x00", b" ", b"\\", b"\n"]
+        for qc in (b'"', b"'"):
+            other = b"'" if qc == b'"' else b'"'
+            for k in range(0, (3 if q else 4) + 1):
+                for combo in itertools.product(pieces + [other], repeat=k):
+                    body = b"".join(combo)
+                    fh.write(json.dumps({"s": list(b"x = " + qc + body + qc)}) + "\n")
+                    n += 1
+                    if k <= 2:
+                        fh.write(json.dumps({"s": list(b"x = " + qc + body)}) + "\n")
+                        n += 1
         # longer inputs over a small alphabet of the interesting classes
         small = [b'"', b"'", b"\\", b"\n", b"a", b"0", b"x", b".", b"`", b"#", b" ", b"("]
         for row in genlex.gen_inputs(4 if q else 5, small):
@@ -43,11 +57,12 @@ def run(ck):
     absorb(ck, r, "parse-total")
     ck.cov["rule"] = ("(a) every byte string up to length %d over %d byte classes (letters, digits, quotes, backslash, newline, brackets, "
                       "operators, a 2-byte rune, an invalid byte, NUL), up to length %d over Unicode blanks / digit / BOM / U+FFFD / 3- and 4-byte runes / "
-                      "ASCII controls / truncated UTF-8 mixed with 10 ASCII classes, and up to length %d over the 12 most interesting ones is lexed by the "
+                      "ASCII controls / truncated UTF-8 mixed with 10 ASCII classes, every quoted literal whose body has up to %d pieces over {escapes of "
+                      "every form, text, multi-byte text, invalid / truncated UTF-8, NUL, line break, the other quote} (closed and open), and up to length %d over the 12 most interesting ones is lexed by the "
                       "real lexer and the item stream is validated by TLC against TraceLexer (cover, order, no overlap, only blanks "
                       "skipped, lexical class, bounded length, ends in EOF or one positioned ERROR). (b) the same texts, random token "
                       "sequences, random bytes, malformed numbers, unterminated forms, deep nesting and valid programs with one token "
                       "deleted/duplicated/replaced go through ParsePipeline: tree xor error, error names the script with a position "
                       "inside the source whose line/column match the offset, nothing crashed internally, no hang. distinct = distinct texts."
-                      % (3, len(alpha), 2 if q else 3, 4 if q else 5))
+                      % (3, len(alpha), 2 if q else 3, 3 if q else 4, 4 if q else 5))
     ck.assumptions += ["acceptance verdicts of arbitrary garbage are not demanded, only the tree-xor-positioned-error disjunction"]
